@@ -113,13 +113,11 @@ def mutate(rng, c, doc):
 
 
 def modelled_doc(d):
-    """documents the model covers: no nan / inf floats; no list that Decimal() could read as a
-    (sign, digits, exponent) triple"""
+    """documents the model covers: no nan / inf floats (a float in a Decimal slot is excluded where it is
+    read: dictdoc.unmodelled)"""
     if isinstance(d, float):
         return d == d and d not in (float('inf'), float('-inf'))
     if isinstance(d, (list, tuple)):
-        if len(d) == 3 and d[0] in (0, 1) and isinstance(d[1], (list, tuple)):
-            return False
         return all(modelled_doc(x) for x in d)
     if isinstance(d, dict):
         return all(modelled_doc(k) and modelled_doc(v) for k, v in d.items())
@@ -251,7 +249,10 @@ def family_struct(check, tier, worlds, next_cfg):
                     for d in docs:
                         if not modelled_doc(d) or not D.doc_in_universe(d):
                             continue
-                        od = D.observe(prot._from_dict_value, None, 'k', T, d, prot.validator)
+                        od, out = D.unmodelled(D.observe, prot._from_dict_value, None, 'k', T, d, prot.validator)
+                        if out:
+                            check.count(('decimal-from-float',), nontrivial=False)
+                            continue
                         if od[0] == 'ok':
                             nv = D.from_native(w.desc, w.classes, f, od[1], member=True)
                             if not D.in_universe(nv):
@@ -308,6 +309,8 @@ def family_leaf(check, tier):
                     if v[0] != 'none':
                         try:
                             docs.append(D.ref_leaf_enc(c, kind, v, {'text': 'str'}))
+                            if proto == 'msgpack':
+                                docs.append(D.ref_leaf_enc(c, kind, v, {'text': 'bin'}))
                         except Exception:
                             pass
                 f = {'name': 'x', 'ty': ('prim', kind, True), 'min': 0, 'max': 1, 'nillable': nil}
@@ -316,7 +319,10 @@ def family_leaf(check, tier):
                         continue
                     if proto == 'json' and _has_bytes(d):
                         continue
-                    od = D.observe(prot._from_dict_value, None, 'k', T, d, prot.validator)
+                    od, out = D.unmodelled(D.observe, prot._from_dict_value, None, 'k', T, d, prot.validator)
+                    if out:
+                        check.count(('decimal-from-float',), nontrivial=False)
+                        continue
                     if od[0] == 'ok':
                         nv = D.from_native(None, [], f, od[1], member=True)
                         if not D.in_universe(nv):
@@ -454,7 +460,7 @@ def family_serve(check, tier, worlds, next_cfg):
                     rets = gen_rets(rng, w, s, c, full=c['list'])
                     w.returns[s['name']] = tuple(D.to_native(w.desc, w.classes, v) for v in rets)
                     docs = []
-                    styles = [{'key': 'str', 'text': 'str'}, {'key': 'bin', 'text': 'str'}] if c['proto'] == 'msgpack' else [{}]
+                    styles = [{'key': 'str', 'text': 'str'}, {'key': 'bin', 'text': 'bin'}] if c['proto'] == 'msgpack' else [{}]
                     for st in styles:
                         if rpc:
                             body = [D.ref_member(c, w.desc, f, x, st) for f, x in zip(s['params'], args)]
@@ -474,7 +480,10 @@ def family_serve(check, tier, worlds, next_cfg):
                             body = D.dumps(c, d)
                         except Exception:
                             continue
-                        r = drive(w, app, body, rpc)
+                        r, out = D.unmodelled(drive, w, app, body, rpc)
+                        if out:
+                            check.count(('decimal-from-float',), nontrivial=False)
+                            continue
                         if r['in_doc'] is None or not D.doc_in_universe(r['in_doc']) or not modelled_doc(r['in_doc']):
                             continue
                         g = g_sres(w, by_name, r['res'])
@@ -739,7 +748,8 @@ def directed_cases(check, tier):
         ('e', [], []),
     ]
     for c in D.all_cfgs():
-        styles = [{'key': 'str', 'text': 'str'}, {'key': 'bin', 'text': 'str'}] if c['proto'] == 'msgpack' else [{}]
+        styles = [{'key': 'str', 'text': 'str'}, {'key': 'bin', 'text': 'str'}, {'key': 'bin', 'text': 'bin'}] \
+            if c['proto'] == 'msgpack' else [{}]
         for name, args, rets in scen:
             none_multi = any(_has_none_multi(w.desc, p, v) for p, v in zip(sig[name]['params'], args)) or \
                 any(_has_none_multi(w.desc, p, v) for p, v in zip(sig[name]['results'], rets))
@@ -761,11 +771,11 @@ def family_oracle(check, tier, worlds, next_cfg):
             for s in w.sigs:
                 args = gen_args(rng, w, s, c, full=c['list'])
                 rets = gen_rets(rng, w, s, c, full=c['list'])
-                style = {'key': rng.choice(['str', 'bin']), 'text': 'str'} if c['proto'] == 'msgpack' else {}
+                style = {'key': rng.choice(['str', 'bin']), 'text': rng.choice(['str', 'bin'])} if c['proto'] == 'msgpack' else {}
                 oracle_case(check, w, c, s, args, rets, style)
                 if c['proto'] == 'msgpack' and c['iw']:
                     oracle_case(check, w, c, s, gen_args(rng, w, s, c, full=True), gen_rets(rng, w, s, c, full=c['list']),
-                                {'key': 'str', 'text': 'str'}, rpc=True)
+                                {'key': rng.choice(['str', 'bin']), 'text': rng.choice(['str', 'bin'])}, rpc=True)
 
 
 def probe_excluded(check):
@@ -809,7 +819,7 @@ def run(check):
         'by json / PyYAML / msgpack) with a reference decoder; a case is distinct by (family, universe, configuration, '
         'slot or signature, value or document)')
     check.trusted = list(lib.COMMON_TRUSTED) + [
-        'translator harness/translate/dictdoc.py (hier.py / dictdoc/_base.py / msgpack.py tokens and the handler tables of '
+        'translator harness/translate/dictdoc.py (hier.py / dictdoc/_base.py / json.py / yaml.py / msgpack.py tokens and the handler tables of '
         'the protocol instances -> Gen/DictDoc.v)',
         'the Python reference codec ref_* in harness/dictdoc.py (the documented conventions as the direct oracle uses '
         'them) and its Coq counterpart coq/C02/Spec.v (senc / sresp / sresp_dec, conformance)',
@@ -823,10 +833,10 @@ def run(check):
         'Any, AnyDict, XmlAttribute, Uuid, Date/Time/Duration members (dates etc. travel as text exactly like Decimal; '
         'their text codecs are C08 theorems, not re-proved here)',
         'Double values are finite; equality of doubles is Python equality (0.0 / -0.0 / 1.0 arrive as 0 / 0 / 1: vnorm)',
-        'Decimal() / int() are modelled for ASCII digits without underscores, NaN / Infinity; nan / inf floats and '
-        'Decimal-readable (sign, digits, exponent) lists are kept out of the mutant stream',
-        'MessagePack text in requests is msgpack str (the bin form the serializer itself writes is not read back by '
-        'the Decimal reader); the reference decoder accepts str and bin for text, as Spyne writes bin',
+        'Decimal() / int() are modelled for ASCII digits without underscores, NaN / Infinity; nan / inf floats are kept '
+        'out of the mutant stream; a float in a Decimal slot (non-conformant; read as Decimal(repr(float))) is outside '
+        'the model: the harness watches the Decimal reader and does not compare such a case',
+        'MessagePack text and keys are str or bin in requests (both styles are driven); Spyne itself writes bin',
         'theorems exclude, and the oracle reports as known findings: complex_as=list with ignore_wrappers=False '
         '(responses lack the wrapper keys), subclass instances under polymorphic=True with ignore_wrappers=True; '
         'MessagePackRpc: theorems for ignore_wrappers=True (its positional parameter convention); the response carries msgid 0, not the request\'s',
